@@ -3980,6 +3980,9 @@ class SFTPClient:
                     if filename in (b'.', b'..'):
                         continue
 
+                    if b'/' in filename:
+                        raise SFTPBadMessage('Invalid directory entry name')
+
                     srcfile = posixpath.join(srcpath, filename)
                     dstfile = posixpath.join(dstpath, filename)
 
